@@ -330,6 +330,20 @@ def check_random(case):
                     break
         obs.LOOSE_MISSING[0] = True
         obs.expect_frame(r, il, cl, want, 'fillna_%s(axis=%d)' % (case['sided'], axis))
+        if axis == 0:
+            # a block none of whose cells was filled comes back as it was, dtypes included (a fill that does happen may re-type
+            # its whole block: listed finding of C03 / C08)
+            got_cols = obs.frame_cols(r)
+            j0 = 0
+            for b in rec['blocks']:
+                wdt = 1 if b.ndim == 1 else b.shape[1]
+                js = list(range(j0, j0 + wdt))
+                j0 += wdt
+                if all(not is_missing(model[j][i]) or is_missing(want[j][i]) for j in js for i in range(n)):
+                    for j in js:
+                        if got_cols[j].dtype != b.dtype:
+                            raise Failure('untouched-dtype', 'fillna_%s(%r): nothing in the block of column %d was filled, its dtype %s became %s' % (
+                                case['sided'], v, j, b.dtype, got_cols[j].dtype))
     elif op == 'count':
         axis = case['axis']
         r = lib(lambda: f.count(axis=axis))
